@@ -126,7 +126,7 @@ pub struct C07 {
     pub stage: &'static str,
 }
 
-fn decode_conflict_free(tape: &[u16], params: &Params, hints: bool, async_weight: u32) -> StructCase {
+pub fn decode_conflict_free(tape: &[u16], params: &Params, hints: bool, async_weight: u32) -> StructCase {
     let split = tape.len().min(64);
     let (head, tail) = tape.split_at(split);
     let mut t = Tape::new(tail);
